@@ -83,7 +83,7 @@ def apiMulticast (msg : Bytes) (ty : Int) (level : Option Int) : NetM Bool := do
   let n ← getNode
   let lvl : Nat := match level with
     | none => n.a.netLvl
-    | some l => (min 3 (max l 0)).toNat
+    | some l => (min 4 (max l 0)).toNat
   setHdr fun h => { (h.setTy (maskInt ty 0xFF)) with toNode := NETWORK_MULTICAST_ADDR, fromNode := n.a.addr }
   modNode fun n => { n with frameBuf := { n.frameBuf with message := msg } }
   nodeWrite F (lvl2addr lvl) TX_MULTICAST
